@@ -296,7 +296,8 @@ PROPS = {
         level_text='Coq theorems over an executable model of SampledLFU: after every sequence of increment (also on a tracked key), update, remove, clear, update_max_cost, room_left(c) = max_cost - sum of recorded costs - c in the i64 arithmetic of the code (costs are arbitrary i64 values, sums wrap: exact modulo 2^64, and the plain integer whenever that fits an i64); update/remove report exactly whether the key was tracked and its cost; fill_sample returns its input followed by distinct tracked pairs up to the sample size, for every hash-map iteration order. Tied to /repo by differential execution through all seven constructors, with costs and capacities drawn from the ends of the i64 range as well.',
         props_files=["C20"],
         theorems={"C20": ["C20_room_left_exact", "C20_room_left_exact_in_range", "C20_tracked_keys_distinct", "C20_update_reports_tracked",
-                          "C20_remove_reports_cost", "C20_fill_sample", "C20_fill_sample_saturates", "C20_fill_sample_size_irrelevant"]},
+                          "C20_remove_reports_cost", "C20_fill_sample", "C20_fill_sample_saturates", "C20_fill_sample_size_irrelevant",
+                          "C20_sample_size_is_inert", "C20_sample_size_is_inert_history"]},
         slices=dict(quick=[dict(name="sampled", slice="sampled", args=["--n", 4000, "--len", 150], shards=8),
                            dict(name="sampled-huge", slice="sampled", args=["--n", 300, "--len", 150, "--big", 1], shards=4, model=False)],
                     thorough=[dict(name="sampled", slice="sampled", args=["--n", 80000, "--len", 400], shards=16),
@@ -330,7 +331,7 @@ PROPS = {
                           "C08_second_access_frequent_get", "C08_frequent_hit_put", "C08_frequent_hit_get",
                           "C08_get_miss", "C08_new_key_full", "C08_ghost_revival_room", "C08_ghost_revival_full", "C08_quota"],
                   "C08Z": ["C08_put_is_value_blind", "C08_get_is_value_blind", "C08_victim_is_value_blind",
-                           "C08_remove_is_value_blind", "C08_lookups_are_value_blind"]},
+                           "C08_remove_is_value_blind", "C08_lookups_are_value_blind", "C08_history_is_value_blind"]},
         axioms_allowed=FLOCQ_AXIOMS,
         slices=dict(quick=[dict(name="twoq", slice="twoq", args=["--n", 6000, "--len", 150], shards=12),
                            dict(name="ctor", slice="ctor", args=["--n", 60, "--len", 150], shards=2),
@@ -353,7 +354,7 @@ PROPS = {
                           "C09_frequent_hit_put", "C09_frequent_hit_get", "C09_get_miss", "C09_recent_ghost_hit",
                           "C09_frequent_ghost_hit", "C09_new_key"],
                   "C09Z": ["C09_put_is_value_blind", "C09_replace_is_value_blind", "C09_get_is_value_blind",
-                           "C09_remove_is_value_blind", "C09_lookups_are_value_blind"]},
+                           "C09_remove_is_value_blind", "C09_lookups_are_value_blind", "C09_history_is_value_blind"]},
         slices=dict(quick=[dict(name="arc", slice="arc", args=["--n", 6000, "--len", 150], shards=12), comp_bfs(False), comp_zst(False)] + comp_big(False, ("arc",)),
                     thorough=[dict(name="arc", slice="arc", args=["--n", 120000, "--len", 400], shards=16), comp_bfs(True), comp_zst(True)] + comp_big(True, ("arc",))),
         corpus=["arc"],
@@ -367,7 +368,7 @@ PROPS = {
                           "C10_admission_filter", "C10_get_records_access", "C10_purge_clears_estimator",
                           "C10_window_hit_moves_to_protected", "C10_main_hit_put"],
                   "C10Z": ["C10_put_is_value_blind", "C10_admission_is_value_blind", "C10_get_is_value_blind",
-                           "C10_remove_is_value_blind"]},
+                           "C10_remove_is_value_blind", "C10_history_is_value_blind"]},
         slices=dict(quick=[dict(name="wtiny", slice="wtiny", args=["--n", 3000, "--len", 150], shards=12),
                            dict(name="wtiny-nostd", slice="wtiny", args=["--n", 600, "--len", 150], shards=4, features="nostd"),
                            dict(name="wtiny-hot", slice="wtiny", args=["--n", 200, "--len", 1500, "--hot", 1], shards=4), comp_zst(False)] + comp_big(False, ("wtiny",)),
